@@ -188,7 +188,7 @@ func runC05(c *Ctx) {
 	okDef := false
 	for _, st := range StoresToField(tu, fWaited) {
 		if VConstObj(P.Const("overlord/state.DoneStatus"))(st.Val) {
-			okDef = c.Guarded("overlord/state.(*Task).UnmarshalJSON#waited-default", tu, st, []Clause{{Cmp("t.waitedStatus==Default", VField(fWaited), token.EQL, VConstObj(P.Const("overlord/state.DefaultStatus")))}}, nil)
+			okDef = c.Guarded("overlord/state.(*Task).UnmarshalJSON#waited-default", tu, st, []Clause{{Cmp("t.waitedStatus==Default", VOr(VField(fWaited), VField(P.Field("overlord/state.marshalledTask.WaitedStatus"))), token.EQL, VConstObj(P.Const("overlord/state.DefaultStatus")))}}, nil)
 		}
 	}
 	if !okDef {
